@@ -3,22 +3,30 @@ From Coq Require Import ZArith.
 From GM Require Import Bytes Result Codec Frame Wire Stream FlatStream Reader Writer FrameProofs Tlog TlogProofs.
 
 (* format: an entry is the 8-byte big-endian microsecond timestamp followed by one frame *)
-Theorem C20_write_ok : forall d budget file e fb f', frame_write d (e_frame e) = (Ok fb, f') -> (2 <= budget)%nat ->
-  tlog_write d budget file e = (Ok tt, (budget - 2)%nat, file ++ ts_bytes (e_time e) ++ fb).
+Theorem C20_write_ok : forall d o file e fb f', frame_write d (e_frame e) = (Ok fb, f') ->
+  tlog_write d (true :: true :: o) file e = (Ok tt, o, file ++ ts_bytes (e_time e) ++ fb).
 Proof. exact write_ok. Qed.
 Print Assumptions C20_write_ok.
 
 (* an entry whose frame cannot be encoded leaves no bytes in the file *)
-Theorem C20_no_partial_entry : forall d budget file e x f', frame_write d (e_frame e) = (Err x, f') ->
-  tlog_write d budget file e = (Err x, budget, file).
+Theorem C20_no_partial_entry : forall d o file e x f', frame_write d (e_frame e) = (Err x, f') ->
+  tlog_write d o file e = (Err x, o, file).
 Proof. exact no_partial_entry. Qed.
 Print Assumptions C20_no_partial_entry.
 
-(* transport write errors are reported *)
-Theorem C20_write_error_reported : forall d budget file e fb f', frame_write d (e_frame e) = (Ok fb, f') -> (budget < 2)%nat ->
-  fst (fst (tlog_write d budget file e)) = Err err_write.
+(* transport write errors are reported (the oracle says, call by call, whether a Write succeeds) *)
+Theorem C20_write_error_reported : forall d o file e fb f', frame_write d (e_frame e) = (Ok fb, f') -> two_ok o = false ->
+  fst (fst (tlog_write d o file e)) = Err err_write.
 Proof. exact write_error_reported. Qed.
 Print Assumptions C20_write_error_reported.
+
+(* after ANY history of entries — refused, failed at the transport (also transiently), written —
+   the next entry that is written appends exactly its own timestamp and frame *)
+Theorem C20_write_after_any_history : forall d es o file e fb f' o1 file1,
+  frame_write d (e_frame e) = (Ok fb, f') -> after_entries d o file es = (true :: true :: o1, file1) ->
+  snd (tlog_write_all d o file (es ++ [e])) = file1 ++ ts_bytes (e_time e) ++ fb.
+Proof. exact write_after_any_history. Qed.
+Print Assumptions C20_write_after_any_history.
 
 (* timestamps round-trip to the microsecond over the whole int64 range (pre-1970 included) *)
 Theorem C20_ts_roundtrip : forall us, (- 9223372036854775808 <= us < 9223372036854775808)%Z ->
